@@ -273,7 +273,7 @@ func execRelationalExprLessThan(context *exprContext, expr *grammar.Grammar) err
 	if leftNodeSetOk && rightNodeSetOk {
 		for _, leftNode := range leftNodeSet {
 			for _, rightNode := range rightNodeSet {
-				if GetCursorString(leftNode) < GetCursorString(rightNode) {
+				if getStringNumber(GetCursorString(leftNode)) < getStringNumber(GetCursorString(rightNode)) {
 					context.result = Bool(true)
 					return nil
 				}
@@ -316,7 +316,7 @@ func execRelationalExprLessThan(context *exprContext, expr *grammar.Grammar) err
 
 	if leftStringOk && rightNodeSetOk {
 		for _, rightNode := range rightNodeSet {
-			if leftString < String(GetCursorString(rightNode)) {
+			if leftString.Number() < getStringNumber(GetCursorString(rightNode)) {
 				context.result = Bool(true)
 				return nil
 			}
@@ -330,7 +330,7 @@ func execRelationalExprLessThan(context *exprContext, expr *grammar.Grammar) err
 
 	if leftNodeSetOk && rightStringOk {
 		for _, leftNode := range leftNodeSet {
-			if String(GetCursorString(leftNode)) < rightString {
+			if getStringNumber(GetCursorString(leftNode)) < rightString.Number() {
 				context.result = Bool(true)
 				return nil
 			}
@@ -338,6 +338,16 @@ func execRelationalExprLessThan(context *exprContext, expr *grammar.Grammar) err
 
 		context.result = Bool(false)
 		return nil
+	}
+
+	// Only a boolean can still be paired with a node-set here: the node-set
+	// is then compared through its boolean value.
+	if leftNodeSetOk {
+		left = Bool(leftNodeSet.Bool())
+	}
+
+	if rightNodeSetOk {
+		right = Bool(rightNodeSet.Bool())
 	}
 
 	context.result = Bool(left.Number() < right.Number())
@@ -357,7 +367,7 @@ func execRelationalExprLessThanOrEqual(context *exprContext, expr *grammar.Gramm
 	if leftNodeSetOk && rightNodeSetOk {
 		for _, leftNode := range leftNodeSet {
 			for _, rightNode := range rightNodeSet {
-				if GetCursorString(leftNode) <= GetCursorString(rightNode) {
+				if getStringNumber(GetCursorString(leftNode)) <= getStringNumber(GetCursorString(rightNode)) {
 					context.result = Bool(true)
 					return nil
 				}
@@ -400,7 +410,7 @@ func execRelationalExprLessThanOrEqual(context *exprContext, expr *grammar.Gramm
 
 	if leftStringOk && rightNodeSetOk {
 		for _, rightNode := range rightNodeSet {
-			if leftString <= String(GetCursorString(rightNode)) {
+			if leftString.Number() <= getStringNumber(GetCursorString(rightNode)) {
 				context.result = Bool(true)
 				return nil
 			}
@@ -414,7 +424,7 @@ func execRelationalExprLessThanOrEqual(context *exprContext, expr *grammar.Gramm
 
 	if leftNodeSetOk && rightStringOk {
 		for _, leftNode := range leftNodeSet {
-			if String(GetCursorString(leftNode)) <= rightString {
+			if getStringNumber(GetCursorString(leftNode)) <= rightString.Number() {
 				context.result = Bool(true)
 				return nil
 			}
@@ -422,6 +432,16 @@ func execRelationalExprLessThanOrEqual(context *exprContext, expr *grammar.Gramm
 
 		context.result = Bool(false)
 		return nil
+	}
+
+	// Only a boolean can still be paired with a node-set here: the node-set
+	// is then compared through its boolean value.
+	if leftNodeSetOk {
+		left = Bool(leftNodeSet.Bool())
+	}
+
+	if rightNodeSetOk {
+		right = Bool(rightNodeSet.Bool())
 	}
 
 	context.result = Bool(left.Number() <= right.Number())
@@ -441,7 +461,7 @@ func execRelationalExprGreaterThan(context *exprContext, expr *grammar.Grammar) 
 	if leftNodeSetOk && rightNodeSetOk {
 		for _, leftNode := range leftNodeSet {
 			for _, rightNode := range rightNodeSet {
-				if GetCursorString(leftNode) > GetCursorString(rightNode) {
+				if getStringNumber(GetCursorString(leftNode)) > getStringNumber(GetCursorString(rightNode)) {
 					context.result = Bool(true)
 					return nil
 				}
@@ -484,7 +504,7 @@ func execRelationalExprGreaterThan(context *exprContext, expr *grammar.Grammar) 
 
 	if leftStringOk && rightNodeSetOk {
 		for _, rightNode := range rightNodeSet {
-			if leftString > String(GetCursorString(rightNode)) {
+			if leftString.Number() > getStringNumber(GetCursorString(rightNode)) {
 				context.result = Bool(true)
 				return nil
 			}
@@ -498,7 +518,7 @@ func execRelationalExprGreaterThan(context *exprContext, expr *grammar.Grammar) 
 
 	if leftNodeSetOk && rightStringOk {
 		for _, leftNode := range leftNodeSet {
-			if String(GetCursorString(leftNode)) > rightString {
+			if getStringNumber(GetCursorString(leftNode)) > rightString.Number() {
 				context.result = Bool(true)
 				return nil
 			}
@@ -506,6 +526,16 @@ func execRelationalExprGreaterThan(context *exprContext, expr *grammar.Grammar) 
 
 		context.result = Bool(false)
 		return nil
+	}
+
+	// Only a boolean can still be paired with a node-set here: the node-set
+	// is then compared through its boolean value.
+	if leftNodeSetOk {
+		left = Bool(leftNodeSet.Bool())
+	}
+
+	if rightNodeSetOk {
+		right = Bool(rightNodeSet.Bool())
 	}
 
 	context.result = Bool(left.Number() > right.Number())
@@ -525,7 +555,7 @@ func execRelationalExprGreaterThanOrEqual(context *exprContext, expr *grammar.Gr
 	if leftNodeSetOk && rightNodeSetOk {
 		for _, leftNode := range leftNodeSet {
 			for _, rightNode := range rightNodeSet {
-				if GetCursorString(leftNode) >= GetCursorString(rightNode) {
+				if getStringNumber(GetCursorString(leftNode)) >= getStringNumber(GetCursorString(rightNode)) {
 					context.result = Bool(true)
 					return nil
 				}
@@ -568,7 +598,7 @@ func execRelationalExprGreaterThanOrEqual(context *exprContext, expr *grammar.Gr
 
 	if leftStringOk && rightNodeSetOk {
 		for _, rightNode := range rightNodeSet {
-			if leftString >= String(GetCursorString(rightNode)) {
+			if leftString.Number() >= getStringNumber(GetCursorString(rightNode)) {
 				context.result = Bool(true)
 				return nil
 			}
@@ -582,7 +612,7 @@ func execRelationalExprGreaterThanOrEqual(context *exprContext, expr *grammar.Gr
 
 	if leftNodeSetOk && rightStringOk {
 		for _, leftNode := range leftNodeSet {
-			if String(GetCursorString(leftNode)) >= rightString {
+			if getStringNumber(GetCursorString(leftNode)) >= rightString.Number() {
 				context.result = Bool(true)
 				return nil
 			}
@@ -590,6 +620,16 @@ func execRelationalExprGreaterThanOrEqual(context *exprContext, expr *grammar.Gr
 
 		context.result = Bool(false)
 		return nil
+	}
+
+	// Only a boolean can still be paired with a node-set here: the node-set
+	// is then compared through its boolean value.
+	if leftNodeSetOk {
+		left = Bool(leftNodeSet.Bool())
+	}
+
+	if rightNodeSetOk {
+		right = Bool(rightNodeSet.Bool())
 	}
 
 	context.result = Bool(left.Number() >= right.Number())
